@@ -270,6 +270,12 @@ def oracle(c):
                         for q in (h.parents, h.children, h.ancestors, h.descendants):
                             if _q(q, x) != _q(q, y):
                                 return "%s differs for spellings %r/%r" % (q.__name__, x, y)
+                        # two-place queries: the same answer for every spelling of either argument
+                        for z in ids:
+                            for q in (h.subsumes, h.compatible):
+                                if _q(q, x, z) != _q(q, y, z) or _q(q, z, x) != _q(q, z, y):
+                                    return "%s differs for spellings %r/%r (other argument %r)" % (
+                                        q.__name__, x, y, z)
     return None
 
 
